@@ -3,6 +3,9 @@
   (chunkstorage.go): `markProcessed` → `HasChunk` → `StoreChunk`, un-marking on a failed store.
   Job j carries chunk ID `ids[j]` (duplicates allowed: concurrent workers race on one ID).
   Store outcomes are chosen by the environment (fault oracle = nondeterministic events).
+  The parent context can be cancelled at every step (`parentCancel`); the feeder then may take its
+  `ctx.Done()` arm, which records the interruption, and the result after `g.Wait()` is `Interrupted`
+  unless a worker failed (the shape of ChopFile / ChunkStream, regenerated: `Gen.poolShape_*`).
 -/
 namespace Desync.PoolCS
 
@@ -15,7 +18,7 @@ inductive Phase
 inductive W | idle | busy (j : Nat) (ph : Phase) | exited
   deriving DecidableEq, Repr
 
-inductive Res | ok | err
+inductive Res | ok | err | interrupted
   deriving DecidableEq, Repr
 
 structure St where
@@ -28,14 +31,17 @@ structure St where
   stored : List Nat := []         -- IDs for which StoreChunk returned nil
   doneOK : List Nat := []         -- jobs whose `s.StoreChunk(chunk)` returned nil
   groupErr : Bool := false
+  parentCancelled : Bool := false
+  broke : Bool := false           -- the interrupted flag set in the `ctx.Done()` arm
   result : Option Res := none
   deriving Repr
 
 def St.init (ids : List Nat) (n : Nat) : St := { ids, workers := List.replicate n .idle }
 
 inductive Ev
+  | parentCancel
   | feedSend (w : Nat)
-  | feedBreak            -- derived context cancelled by a failed worker
+  | feedBreak            -- derived context done: a worker failed or the parent was cancelled
   | feedEnd
   | mark (w : Nat)       -- markProcessed: already marked ⇒ job returns nil at once
   | hasTrue (w : Nat) | hasFalse (w : Nat) | hasErr (w : Nat)
@@ -47,12 +53,15 @@ inductive Ev
 def idOf (s : St) (j : Nat) : Nat := s.ids.getD j 0
 
 def step (s : St) : Ev → Option St
+  | .parentCancel => if s.result.isNone then some { s with parentCancelled := true } else none
   | .feedSend w =>
     if !s.feederClosed ∧ s.next < s.ids.length ∧ s.workers[w]? = some .idle then
       some { s with workers := s.workers.set w (.busy s.next .start), next := s.next + 1 }
     else none
   | .feedBreak =>
-    if !s.feederClosed ∧ s.next < s.ids.length ∧ s.groupErr then some { s with feederClosed := true } else none
+    if !s.feederClosed ∧ s.next < s.ids.length ∧ (s.groupErr ∨ s.parentCancelled) then
+      some { s with feederClosed := true, broke := true }
+    else none
   | .feedEnd =>
     if !s.feederClosed ∧ s.next = s.ids.length then some { s with feederClosed := true } else none
   | .mark w =>
@@ -90,7 +99,7 @@ def step (s : St) : Ev → Option St
     if s.feederClosed ∧ s.workers[w]? = some .idle then some { s with workers := s.workers.set w .exited } else none
   | .wait =>
     if s.feederClosed ∧ s.result.isNone ∧ s.workers.all (· == .exited) then
-      some { s with result := some (if s.groupErr then .err else .ok) }
+      some { s with result := some (if s.groupErr then .err else if s.broke then .interrupted else .ok) }
     else none
 
 inductive Reachable (s0 : St) : St → Prop
